@@ -9,7 +9,10 @@ RULE = ("chain and two-branch topologies giving routes of 1..8 hops between real
         "nodes (one thread per MCU); single-frame unicast messages of every type 0..255 except "
         "those the network layer consumes, one at a time, under fault plans that kill exactly one "
         "hop of the forward route or one relay of the NETWORK_ACK (or nothing), with tx_timeout in "
-        "{5,25,60} ms and route_timeout in {15,75,200} ms; judged offline from the air log "
+        "{5,25,60} ms and route_timeout in {15,75,200} ms; a quarter of the messages are re-sent with "
+        "the SAME header object (same frame id and type); while an origin with children waits in "
+        "vain, a foreign frame (NETWORK_ACK or other) addressed to an absent/present child arrives "
+        "to be relayed; multicast is disabled on a quarter of the nodes; judged offline from the air log "
         "(NETWORK_ACK frames by originator/PID, reception time at the origin) and the call history "
         "(result, virtual duration). Non-trivial: >=1 frame crossed the air and quiescence was "
         "reached; distinct = (hops, type class, fault plan kind and position, timeouts).")
@@ -17,6 +20,7 @@ REQUIRED = {"result_vs_ack_arrival": 150, "ack_count": 300, "no_ack_for_others":
             "duration_bound": 300}
 BUDGET = {"quick": 150, "thorough": 600}
 
+FOREIGN_ID = 0xEEEE
 CONSUMED = {128, 130, 131, 148, 149, 150, 193, 194, 195}
 
 
@@ -69,9 +73,28 @@ def gen_cases(ctx):
                 # the NETWORK_ACK originates at path[-2] and is relayed back towards the origin
                 j = rng.randrange(1, len(path) - 1)
                 plan = {"kind": "ack", "node": path[j]}
-            msgs.append({"src": src, "dst": dst, "type": t, "len": rng.choice([0, 1, 12, 24]),
-                         "plan": plan})
+            ms = {"src": src, "dst": dst, "type": t, "len": rng.choice([0, 1, 12, 24]), "plan": plan}
+            if plan and plan["kind"] == "ack" and net_ref.level(src) < 4 and rng.random() < 0.5:
+                # while the origin waits in vain, somebody else's NETWORK_ACK comes by to be
+                # relayed to one of its (absent or present) children
+                kids = [src | (c << (3 * net_ref.level(src))) for c in range(1, 6)]
+                kids = [a for a in kids if a != net_ref.DEFAULT_ADDR]
+                absent = [a for a in kids if a not in nodes]
+                present = [a for a in kids if a in nodes and a not in path]
+                pick = present if present and rng.random() < 0.3 else absent
+                if pick:
+                    ms["foreign"] = {"to": rng.choice(pick), "type": rng.choice([193, 193, 193, 70, 131]),
+                                     "delay_us": rng.choice([200, 1000, 4000])}
+            msgs.append(ms)
+            if rng.random() < 0.25:
+                # the application sends the same header object again (same id, same type)
+                again = dict(ms, again=True, plan=None)
+                again.pop("foreign", None)
+                if rng.random() < 0.3 and plan:
+                    again["plan"] = plan
+                msgs.append(again)
         yield {"nodes": nodes, "msgs": msgs, "tx_timeout": tx_to, "route_timeout": rt_to,
+               "mc_off": [a for a in nodes if rng.random() < 0.25],
                "profiles": {str(a): N.rand_profile(rng, base=base) for a in nodes},
                "seed": rng.getrandbits(30)}
 
@@ -92,8 +115,11 @@ def _run(ctx, case, net):
         def setup(o):
             o.tx_timeout = case["tx_timeout"]
             o.route_timeout = case["route_timeout"]
+            if a in case.get("mc_off", ()):
+                o.allow_multicast = False
         net.add("net", a, profile=case["profiles"][str(a)], setup=setup)
-    active = {"plan": None, "mid": None, "origin": None}
+    active = {"plan": None, "mid": None, "origin": None, "foreign": None}
+    last_hdr = {}
 
     def fault(pkt, rx):
         pl = active["plan"]
@@ -104,14 +130,28 @@ def _run(ctx, case, net):
             return False
         is_ack = h["type"] == net_ref.NETWORK_ACK and h["from"] == h["to"] == active["origin"]
         if pl["kind"] == "ack":
+            fo = active["foreign"]
+            if is_ack and fo is not None:
+                active["foreign"] = None
+                frame = net_ref.pack_header(fo["to"], fo["to"], FOREIGN_ID, fo["type"], 0)
+                net.world.at(pkt.t1 + fo["delay_us"] * W.US, net.bykey[active["origin"]].radio.inject_rx,
+                             0, frame)
+                ctx.count("foreign_frames_injected")
             return is_ack
         return (not is_ack) and h["from"] == active["origin"]
     net.air.fault = fault
     for k, ms in enumerate(case["msgs"]):
         def fn(nn, ms=ms):
-            h = Hdr(ms["dst"], ms["type"])
+            if ms.get("again") and ms["src"] in last_hdr:
+                h = last_hdr[ms["src"]]
+                h.to_node, h.message_type = ms["dst"], ms["type"]
+                ctx.count("same_header_resent")
+            else:
+                h = Hdr(ms["dst"], ms["type"])
+            last_hdr[ms["src"]] = h
             ms["_fid"] = h.frame_id
             active["plan"], active["mid"], active["origin"] = ms["plan"], h.frame_id, ms["src"]
+            active["foreign"] = ms.get("foreign") if h.frame_id != FOREIGN_ID else None
             return nn.obj.send(h, bytes([k & 0xFF]) * ms["len"])
         net.steps.append({"who": ms["src"], "name": "send", "fn": fn, "deadline_ms": 4000,
                           "gap": 10 * W.MS})
